@@ -37,7 +37,14 @@ META_PART = (
     "were refuted before the repair of _clamp_speed / _check_duration in the project; the extracted model is run "
     "against the real class on every op of a speeds x durations alphabet from 10 seed states, exhaustive op pairs, a "
     "constructor table and seeded random histories, comparing outcome, return value, every attribute, recorded sleeps and "
-    "level events per op."
+    "level events per op. BINARY64 (Host/DCMotorFloat.v: ramp() with its four rounded operations per step, fl53): |speed| <= 1 is an exact "
+    "inequality - C19_ramp_binary64_stored_in_unit (every speed the real algorithm stores is in [-1,1] for every start, step value and step: the "
+    "clamp in set_speed does it), C19_ramp_binary64_raw_overshoots_refuted (the raw 20th point from -0.95 to 1 is 1 + 2^-52: a ramp that bypasses "
+    "the clamp breaks the invariant), C19_ramp_binary64_raw_end_near / _ends_near_target (raw and stored end within 2^-49 of the clamped target: "
+    "'to float rounding'), C19_ramp_binary64, C19_motor_inv_step_binary64 / _inv_reachable_binary64 / _history_events_binary64 / "
+    "_failed_call_atomic_binary64 (the invariant and the per-level clauses after every history of the class as CPython runs it); the extracted "
+    "binary64 model is compared BIT FOR BIT (no tolerance) with the real class on every start k/100 and k/1000, seeded random binary64 starts, "
+    "ramps to and one ulp / far past both limits, repeated ramps and run_for / ramp / invert chains, and the random streams."
 )
 
 H = Fr(1, 2)
@@ -570,7 +577,9 @@ def run_unit(ctx: C.Ctx) -> dict:
                  "range, 20%% boundary, 10%% invalid; a second stream draws speeds from non-dyadic binary64 values such as 0.1, 0.3, 1/3) + "
                  "set_speed / backward / ramp / run_for with speeds in {1/2,-2,0,None,True,-1/8,NaN,inf,-inf} x durations in {NaN,inf,-inf,20,0,-1,5/2,1/1024} "
                  "after 5 prefixes (model with IEEE specials vs class, and oracle) + a table and seeded random histories with NaN / inf / -0.0 / numeric strings / "
-                 "ints beyond the float range as speeds and durations (implementation + oracle only). evaluations = method calls executed on the real objects and compared field by field with the model; "
+                 "ints beyond the float range as speeds and durations (implementation + oracle only) + binary64 streams (compared bit for bit with Host/DCMotorFloat.v): set_speed(k/100); ramp(t, d) for all 201 k and t in "
+                 "{1.0, -1.0, 5.0, -2, +-(1+2^-52), ...}, set_speed(k/1000); ramp(+-1.0, d) for all 2001 k, interior targets, starts reached through backward / inverted motors, seeded random binary64 starts "
+                 "(uniform and within 2^-1..2^-50 of +-1), chains of repeated ramps / run_for / invert / backward over decimal speeds, and every speed-taking call with an argument one ulp and 2^-40 outside [-1, 1] from 5 prefixes. evaluations = method calls executed on the real objects and compared field by field with the model; "
                  "distinct non-trivial = distinct (full state before, call) with a non-getter call that raised, changed state or emitted events."
                  % (len(CTORS), len(FULL), len(QUICK), len(QUICK), len(QUICK), len(FULL), len(FULL), len(QUICK))),
         "samples": samples,
@@ -580,7 +589,7 @@ def run_unit(ctx: C.Ctx) -> dict:
                   "of the finite model use ints, bools, None and dyadic floats; finite durations stay below 2**31 ms (the wait itself is replaced by a recorder, "
                   "see unmodelled)"),
         "unmodelled": [
-            "binary64 rounding: model floats are exact rationals; compared to 1e-9 (a ramp ending 1e-17 away from 0 with mode 'drive' is float rounding, tolerated and counted in float_zero_residue_steps_tolerated)",
+            "binary64 overflow / subnormals: the binary64 model of ramp() (fl53) has an unbounded exponent - it is IEEE-754 binary64 when target - start is 0 or at least 2^-1000 in magnitude and durations are below 2^1000, which is what is generated. The exact-rational model is still compared to 1e-9 on the dyadic streams (there a ramp ending 1e-17 away from 0 with mode 'drive' is float rounding, tolerated and counted in float_zero_residue_steps_tolerated); the binary64 model is compared exactly, the oracle's invariant clauses (|speed| <= 1, |applied| <= 1, applied = +-speed, mode) are exact",
             "-0.0, numeric strings accepted by float() in DCMotor._clamp_speed, other strings and ints beyond the float range: sent to the implementation only, oracle = invariant + atomicity of failing calls (NaN and the infinities are in the model with specials, Host/ActuatorsX.v, for one call after a prefix of ordinary calls; inside longer random histories they too are judged by the oracle only)",
             "the wait itself: the package-level sleep is replaced by a recorder (as tests/test_actuators.py does); in the specials streams and the witness replays the recorder additionally runs the real Reduino.Utils.sleep validation and hands non-finite durations to the real time.sleep. Finite durations beyond what the platform's time.sleep accepts (about 9.2e12 ms = 292 years on CPython/Linux: OverflowError from time.sleep after run_for applied its speed) are not generated and not modelled",
             "DCMotor.__repr__ (debug helper)", "keyword-argument calls (C08's subject); direct writes to the attributes; a patched _RAMP_STEPS <= 0 (the model follows the generated constant)",
@@ -588,7 +597,7 @@ def run_unit(ctx: C.Ctx) -> dict:
         "trusted_base": [
             "harness/gen/c19_motor.py (reads DCMotor._RAMP_STEPS, the default of backward() and the public method signatures from the current source; fail-closed)",
             "harness/impl/c19_motor_impl.py + c19_sm_runner.py (drive the real class; sleeps recorded through Reduino.Actuators.sleep, level events by wrapping DCMotor._apply_speed/stop/coast)",
-            "harness/props/c19_motor.py + harness/c19_sm.py (generators, comparison with 1e-9 float tolerance, oracle)",
+            "harness/props/c19_motor.py + harness/c19_sm.py (generators, comparison with 1e-9 float tolerance for the rational model and bit for bit for the binary64 model, oracle with exact invariant clauses)",
         ],
         "assumptions": ["Python floats behave as exact rationals up to 1e-9 on the generated dyadic inputs (measured by the correspondence)",
                         "the last-command ghost changes only on successful stop/run_for/set_speed/backward/coast/invert/ramp (DESIGN.md A.4; proved for the model as C19_motor_ghost_step, compared per op with the history of real outcomes)",
